@@ -133,3 +133,18 @@ def _sn_soft_eval(v):
     return v['monitor'] == 'sampling-rule' and d.get('kind') == 'sn' and \
         d.get('training') is False and d.get('hard') is False and d.get('at_argmax') is True and \
         d.get('onehot') is False
+
+
+@predicate('pit-import-fuses-bn-into-user-layer')
+def _pit_manual_bn(v):
+    """autoconvert_layers=False: the searchable layers are the user's own objects; conversion
+    attaches the fused BatchNorm and the features-calculator buffers to them, so the user's model
+    gains state_dict entries and applies the BatchNorm twice."""
+    d = _d(v)
+    if v['monitor'] != 'user-model' or d.get('manual') is not True:
+        return False
+    if str(d.get('sig', '')).startswith('pit:state_dict'):
+        return d.get('all_changes_are_additions_under_user_placed_layers') is True
+    if str(d.get('sig', '')).startswith('pit:output'):
+        return d.get('batchnorm_after_user_placed_layer') is True
+    return False
